@@ -129,13 +129,34 @@ def nonempty_term(t: Term, nonempty: Set[Term]) -> Optional[bool]:
 
 
 
+def elem_of(iter_term: Term, j: int) -> Term:
+    """term for the j-th element produced by iterating `iter_term` (enumerate / zip are resolved structurally)"""
+    if iter_term[0] == "call" and not iter_term[3]:
+        name, args = iter_term[1], iter_term[2]
+        if name == "enumerate" and len(args) in (1, 2):
+            start = args[1] if len(args) == 2 else C(0)
+            return ("tuple", (T.p_add(C(j), start), elem_of(args[0], j)))
+        if name == "zip" and args and not any(a[0] == "star" for a in args):
+            return ("tuple", tuple(elem_of(a, j) for a in args))
+        if name in ("iter", "list", "tuple") and len(args) == 1:
+            return elem_of(args[0], j)
+    if iter_term[0] == "call" and iter_term[1] == "enumerate" and len(iter_term[2]) == 1 and len(iter_term[3]) == 1 \
+            and iter_term[3][0][0] == "start":
+        return ("tuple", (T.p_add(C(j), iter_term[3][0][1]), elem_of(iter_term[2][0], j)))
+    if iter_term[0] in ("tuple", "list") and j < len(iter_term[1]) and not any(x[0] == "star" for x in iter_term[1]):
+        return iter_term[1][j]
+    return ("elem", iter_term, j)
+
+
 class Explorer:
     def __init__(self, ctx: Ctx, fn: FunctionInfo, env: Optional[Dict[str, Term]] = None,
                  heap: Optional[Dict[Term, Term]] = None, facts: Optional[Dict[Term, bool]] = None,
                  unroll: Tuple[int, ...] = (0, 1, 2), inline: int = 0, inline_ok=None, max_paths: int = 20000,
                  truthy_elems: bool = False, nonempty: Optional[Set[Term]] = None,
-                 self_term: Optional[Term] = None, track_heap: bool = True, follow=None, _depth: int = 0):
+                 self_term: Optional[Term] = None, track_heap: bool = True, follow=None, _depth: int = 0,
+                 split_returns: bool = False):
         self.ctx = ctx
+        self.split_returns = split_returns   # `return a if c else b` is explored as `if c: return a` / `else: return b`
         self.fn = fn
         self.unroll = tuple(sorted(set(unroll)))
         self.inline = inline
@@ -266,13 +287,16 @@ class Explorer:
         """If `call` is a call of a repository function that the `follow` predicate selects, explore the callee in place:
         returns [(state after the callee, returned term)] - one per callee path - or None when the call is not followed.
         (Helper extraction is thereby invisible to path rules: the callee's events are spliced into the caller's path.)"""
-        if self.follow is None or not isinstance(call, ast.Call) or self._depth >= 3:
+        if not isinstance(call, ast.Call) or self._depth >= 3:
             return None
         callees = [c for c in self.ctx.cg.resolve_call(self.fn, call) if c.kind == "fn"]
         if len(callees) != 1 or callees[0].via == "name-fallback":
             return None
         callee = callees[0].fn
-        if callee is self.fn or not self.follow(callee) or callee.is_lambda:
+        from .norm import is_new_helper
+        is_gen = any(isinstance(x, (ast.Yield, ast.YieldFrom)) for x in ast.walk(callee.node))
+        wanted = (self.follow is not None and self.follow(callee)) or (is_new_helper(callee) and not is_gen)
+        if callee is self.fn or not wanted or callee.is_lambda:
             return None
         from .callgraph import bind_args
         params = callee.call_params()
@@ -327,6 +351,18 @@ class Explorer:
             return [(st, None)]
         t = n.norm(v)
         st.add(Event("call" if isinstance(v, ast.Call) else "expr", s, t))
+        # a list literal built up locally: xs = []; xs.append(e) / xs.extend([..])  keeps its value as a literal
+        if isinstance(v, ast.Call) and isinstance(v.func, ast.Attribute) and isinstance(v.func.value, ast.Name) \
+                and v.func.attr in ("append", "extend") and len(v.args) == 1 and not v.keywords:
+            cur = st.env.get(v.func.value.id)
+            if cur is not None and cur[0] == "list" and not any(x[0] == "star" for x in cur[1]):
+                arg = n.norm(v.args[0])
+                if v.func.attr == "append":
+                    st.env[v.func.value.id] = ("list", cur[1] + (arg,))
+                elif arg[0] in ("list", "tuple"):
+                    st.env[v.func.value.id] = ("list", cur[1] + tuple(arg[1]))
+                else:
+                    st.env[v.func.value.id] = ("concat", (cur, arg))
         return [(st, None)]
 
     def _assign_target(self, tg: ast.expr, value: Term, st: State, node: ast.AST):
@@ -424,6 +460,17 @@ class Explorer:
         if followed is not None:
             return [(ns, ("return", val, s)) for ns, val in followed]
         v = self.normalizer(st).norm(s.value) if s.value is not None else T.NONE
+        if self.split_returns and v[0] == "select":
+            out = []
+            work = [(st, v)]
+            while work:
+                cur, val = work.pop()
+                if val[0] == "select" and len(out) + len(work) < 16:
+                    for s2, truth in self.branch(val[1], cur, s):
+                        work.append((s2, val[2] if truth else val[3]))
+                else:
+                    out.append((cur, ("return", val, s)))
+            return out
         return [(st, ("return", v, s))]
 
     def x_Raise(self, s, st):
@@ -560,7 +607,7 @@ class Explorer:
                 for en in enter_states:
                     en.add(Event("iter", s, None, {"index": j}))
                     if iter_term is not None:
-                        self._assign_target(s.target, ("elem", iter_term, j), en, s)
+                        self._assign_target(s.target, elem_of(iter_term, j), en, s)
                     for c2, sig in self.exec_block(s.body, en):
                         if sig is None or sig[0] == "continue":
                             nxt.append(c2)
@@ -578,7 +625,33 @@ class Explorer:
     def x_For(self, s, st):
         it = self.normalizer(st).norm(s.iter)
         st.add(Event("foriter", s, it))
+        if it[0] in ("tuple", "list") and 0 < len(it[1]) <= 4 and not any(x[0] == "star" for x in it[1]) and not s.orelse:
+            return self._loop_literal(s, st, it)
         return self._loop(s, st, it, None)
+
+    def _loop_literal(self, s, st, it):
+        """a loop over a literal tuple / list runs exactly once per element"""
+        results = []
+        frontier = [st]
+        for j, item in enumerate(it[1]):
+            nxt = []
+            for cur in frontier:
+                cur.add(Event("iter", s, None, {"index": j}))
+                self._assign_target(s.target, item, cur, s)
+                for c2, sig in self.exec_block(s.body, cur):
+                    if sig is None or sig[0] == "continue":
+                        nxt.append(c2)
+                    elif sig[0] == "break":
+                        c2.add(Event("loop-exit", s, None, {"iterations": j + 1, "break": True}))
+                        results.append((c2, None))
+                    else:
+                        results.append((c2, sig))
+            frontier = nxt
+            self._cap(len(frontier) + len(results))
+        for cur in frontier:
+            cur.add(Event("loop-exit", s, None, {"iterations": len(it[1])}))
+            results.append((cur, None))
+        return results
 
     x_AsyncFor = x_For
 
